@@ -4,7 +4,7 @@
 # usage: tools/confirm_seed.sh <dir with patch.diff and demo.rs>
 set -u
 D="$(readlink -f "$1")"
-W=/tmp/mym/confirm
+W="${SEED_SCRATCH:-/tmp/mym}/confirm"; mkdir -p "$(dirname "$W")"
 if [ ! -d "$W" ]; then git -C /repo worktree add -q --detach "$W" HEAD || exit 2; fi
 cd "$W" && git checkout -q --detach "$(git -C /repo rev-parse HEAD)" && git checkout -q -- . && git clean -qfd -e target
 mkdir -p tests && cp "$D/demo.rs" tests/seed_demo.rs
